@@ -101,10 +101,16 @@ def build_metadata(schema):
             kw = {}
             if c.get("pk"):
                 kw["primary_key"] = True
+                if c.get("autoinc") is False:
+                    kw["autoincrement"] = False  # explicit autoincrement=False on a primary key column
             if c.get("computed"):
                 # a generated column (SQLite reflects it); nullable is always stated explicitly
-                cols.append(sa.Column(c["name"], mk_type(c["ty"]), sa.Computed(c["computed"]["sql"], persisted=bool(c["computed"].get("persisted"))),
-                                      nullable=c["nullable"], **kw))
+                if c["computed"].get("nullable_unset"):
+                    # nullable= not stated: the documented case in which a nullability difference is ignored
+                    cols.append(sa.Column(c["name"], mk_type(c["ty"]), sa.Computed(c["computed"]["sql"], persisted=bool(c["computed"].get("persisted"))), **kw))
+                else:
+                    cols.append(sa.Column(c["name"], mk_type(c["ty"]), sa.Computed(c["computed"]["sql"], persisted=bool(c["computed"].get("persisted"))),
+                                          nullable=c["nullable"], **kw))
                 continue
             cols.append(
                 sa.Column(c["name"], mk_type(c["ty"]), nullable=c["nullable"], server_default=mk_default(c.get("default")), **kw)
@@ -126,7 +132,12 @@ def build_metadata(schema):
             )
         tbl = sa.Table(t["name"], md, *items)
         for ix in t.get("ixs", []):
-            sa.Index(ix["name"], *[tbl.c[c] for c in ix["cols"]], unique=bool(ix.get("unique")))
+            # "desc": first column descending - SQLite reflects the index with plain column names
+            exprs = [tbl.c[c].desc() if (i == 0 and ix.get("desc")) else tbl.c[c] for i, c in enumerate(ix["cols"])]
+            sa.Index(ix["name"], *exprs, unique=bool(ix.get("unique")))
+        for fx in t.get("fixs", []):
+            # expression-based index: SQLite does not reflect it, autogenerate skips it (with a warning)
+            sa.Index(fx["name"], sa.func.lower(tbl.c[fx["col"]]))
     return md
 
 
@@ -173,6 +184,13 @@ def _fk_canon(fk, kind):
     }
 
 
+def _ix_col(e):
+    """column name of an index element; a sort modifier (col.desc()) is unwrapped - SQLite reflects plain names"""
+    while not isinstance(getattr(e, "name", None), str) and hasattr(e, "element"):
+        e = e.element
+    return getattr(e, "name", None) or str(e)
+
+
 def canon_diffs(mctx, diffs):
     """as_diffs() -> list of canonical op dicts (model vocabulary)."""
     out = []
@@ -203,7 +221,7 @@ def canon_diffs(mctx, diffs):
         elif kind in ("add_index", "remove_index"):
             ix = d[1]
             out.append(
-                {"k": kind, "t": ix.table.name, "n": ix.name, "cols": [getattr(e, "name", str(e)) for e in ix.expressions], "unique": bool(ix.unique)}
+                {"k": kind, "t": ix.table.name, "n": ix.name, "cols": [_ix_col(e) for e in ix.expressions], "unique": bool(ix.unique)}
             )
         elif kind in ("add_constraint", "remove_constraint"):
             uq = d[1]
